@@ -154,6 +154,12 @@ class Session:
         self.c.calls.append({"fn": "Blocks.__delitem__", "args": [enc_s(bid)], "entropy": "", "stream": "tr31", "session": True})
         return self._finish(r, f"hist.delblock\t{enc_s(bid)}", lambda v: "n")
 
+    def setkbpk(self, k):
+        r = call_impl(lambda v: setattr(self.kb, "kbpk", v), (k,), stream="tr31")
+        self.kbpk = k
+        self.c.calls.append({"fn": "KeyBlock.kbpk=", "args": [enc_b(k)], "entropy": "", "stream": "tr31", "session": True})
+        return self._finish(r, f"hist.setkbpk\t{enc_b(k)}", lambda v: "n")
+
     def str(self):
         r = call_impl(self.kb.header.__str__, (), stream="tr31")
         self.c.calls.append({"fn": "Header.__str__", "args": [], "entropy": "", "stream": "tr31", "session": True})
